@@ -939,6 +939,35 @@ async def run_sc(sc):
                     await acc(**kw)
                 except (Exception, asyncio.CancelledError):
                     pass       # (an accessor re-raises a handler's recorded error, which may be a CancelledError)
+            # C11: the original exception object of a failed handler is re-raised by the accessors exactly when raise_if_any
+            errs = [r.error for r in ev.event_results.values() if isinstance(r.error, BaseException)]
+            if errs:
+                bad = None
+                for name in ('event_results_by_handler_id', 'event_results_list', 'event_results_flat_dict',
+                             'event_results_flat_list', 'event_result', 'event_results_by_handler_name'):
+                    acc = getattr(ev, name, None)
+                    if acc is None:
+                        continue
+                    params = inspect.signature(acc).parameters
+                    for ra in (False, True):
+                        kw = {}
+                        if 'raise_if_any' in params:
+                            kw['raise_if_any'] = ra
+                        if 'raise_if_none' in params:
+                            kw['raise_if_none'] = True
+                        if 'timeout' in params:
+                            kw['timeout'] = 0.25
+                        raised = None
+                        try:
+                            await acc(**kw)
+                        except (Exception, asyncio.CancelledError) as ex:
+                            raised = ex
+                        original = raised is not None and any(raised is e for e in errs)
+                        if not ra and original:
+                            bad = bad or f'{name}(raise_if_any=False) re-raised a handler exception'
+                        if ra and not original:
+                            bad = bad or f'{name}(raise_if_any=True) did not re-raise the original exception object'
+                RT.rec('accessorRaise', e=i, bad=bad or '')
             after = valsnap(ev)
             if after != before:
                 diff = [k for k in sorted(set(before) | set(after)) if before.get(k) != after.get(k)]
